@@ -25,7 +25,7 @@ func TestMain(m *testing.M) { rec.Main(m) }
 
 const rule = "scripts = tape-driven scenarios on 2 connected chains exercising cross-chain calls (ok / reverting / failing-hook call data), Tendermint/BSC(3 validators)/ETH(Rinkeby)/TSS client updates, receives, acks, " +
 	"TSS-injected packets, coin/ERC-20 conversions, staking and gov system-contract calls, bank sends, reward vesting every block, and governance proposals of 8 kinds through the real submit/vote/EndBlock flow; " +
-	"each script is executed twice in this process and once in a child process with GOMAXPROCS=1 and an unusable TMPDIR; every ABCI response (begin/end block events, every DeliverTx code, data, log, gas, ordered events, commit hash) must be identical; " +
+	"each script is executed by three nodes: one that never stops, one whose process restarts between blocks (new application object over the same database after every k-th commit, k drawn from 1..5), and a child process with GOMAXPROCS=1 and an unusable TMPDIR that also runs Simulate and CheckTx on every transaction before delivering it (and may restart too); every ABCI response (begin/end block events, every DeliverTx code, data, log, gas, ordered events, commit hash) must be identical; " +
 	"non-trivial = script with >= 6 distinct message/proposal kinds including a BSC update; distinct by set of kinds"
 
 // rapidChooser draws from rapid and records the tape.
@@ -41,8 +41,9 @@ func (r *rapidChooser) Intn(label string, n int) int {
 }
 
 type childReq struct {
-	Tape  []uint32 `json:"tape"`
-	Steps int      `json:"steps"`
+	Tape    []uint32    `json:"tape"`
+	Steps   int         `json:"steps"`
+	Profile nodeProfile `json:"profile"`
 }
 
 type childRes struct {
@@ -51,11 +52,11 @@ type childRes struct {
 }
 
 // runChild replays the tape in a fresh process with a different scheduler width and temp-dir environment.
-func runChild(tape []uint32, steps int, env []string) childRes {
+func runChild(tape []uint32, steps int, prof nodeProfile, env []string) childRes {
 	dir, err := os.MkdirTemp("", "c14")
 	kit.Must(err, "mkdtemp")
 	defer os.RemoveAll(dir)
-	req, _ := json.Marshal(childReq{Tape: tape, Steps: steps})
+	req, _ := json.Marshal(childReq{Tape: tape, Steps: steps, Profile: prof})
 	in, out := filepath.Join(dir, "in.json"), filepath.Join(dir, "out.json")
 	kit.Must(os.WriteFile(in, req, 0o644), "write child input")
 	cmd := exec.Command(os.Args[0], "-test.run", "^TestC14_Child$", "-test.count", "1")
@@ -91,7 +92,7 @@ func TestC14_Child(t *testing.T) {
 	if len(req.Tape) == 0 && req.Steps < 0 {
 		res.Trace = powScenario()
 	} else {
-		res.Trace, res.Kinds = runScenario(&Tape{Vals: req.Tape}, req.Steps)
+		res.Trace, res.Kinds = runScenario(&Tape{Vals: req.Tape}, req.Steps, req.Profile)
 	}
 	ob, _ := json.Marshal(res)
 	kit.Must(os.WriteFile(os.Getenv("C14_CHILD_OUT"), ob, 0o644), "write child output")
@@ -116,14 +117,21 @@ func TestC14_ReplayDeterminism(t *testing.T) {
 	rapid.Check(t, func(t *rapid.T) {
 		steps := rapid.IntRange(8, 28).Draw(t, "steps")
 		rc := &rapidChooser{t: t}
-		trA, kinds := runScenario(rc, steps)
-		trB, _ := runScenario(&Tape{Vals: rc.tape}, steps)
-		if d := firstDiff(trA, trB); d != "" {
-			t.Fatalf("two in-process replays of the same script disagree: %s", d)
+		// node B restarts its process between blocks; the child process additionally simulates and CheckTx-es every transaction
+		profB := nodeProfile{RestartEvery: rapid.IntRange(1, 5).Draw(t, "restartEvery")}
+		profB.RestartOffset = rapid.IntRange(0, profB.RestartEvery-1).Draw(t, "restartOffset")
+		profC := nodeProfile{Simulate: true}
+		if rapid.Bool().Draw(t, "childRestarts") {
+			profC.RestartEvery = rapid.IntRange(2, 9).Draw(t, "childRestartEvery")
 		}
-		child := runChild(rc.tape, steps, hostileEnv)
+		trA, kinds := runScenario(rc, steps, nodeProfile{})
+		trB, _ := runScenario(&Tape{Vals: rc.tape}, steps, profB)
+		if d := firstDiff(trA, trB); d != "" {
+			t.Fatalf("a node that never stops and a node that restarts between blocks (%s) disagree on the same script: %s", profB, d)
+		}
+		child := runChild(rc.tape, steps, profC, hostileEnv)
 		if d := firstDiff(trA, child.Trace); d != "" {
-			t.Fatalf("replay in a child process (GOMAXPROCS=1, unusable TMPDIR) disagrees with this process: %s", d)
+			t.Fatalf("replay in a child process (GOMAXPROCS=1, unusable TMPDIR, %s) disagrees with this process: %s", profC, d)
 		}
 		var ks []string
 		for k := range kinds {
@@ -133,7 +141,7 @@ func TestC14_ReplayDeterminism(t *testing.T) {
 		sort.Strings(ks)
 		nt := len(ks) >= 6 && kinds["MsgUpdateClient(bsc)"] > 0
 		r.Case(strings.Join(ks, ","), nt, func() interface{} {
-			return map[string]interface{}{"steps": steps, "kinds": kinds, "responses": len(trA), "trace_digest": traceDigest(trA), "tape_len": len(rc.tape)}
+			return map[string]interface{}{"steps": steps, "kinds": kinds, "node_b": profB.String(), "child": profC.String(), "responses": len(trA), "trace_digest": traceDigest(trA), "tape_len": len(rc.tape)}
 		})
 	})
 }
@@ -172,7 +180,7 @@ const keyTmp = "ethash-tempdir"
 func TestC14_PowEnvironment(t *testing.T) {
 	r := rec.For("TestC14_PowEnvironment", "pinned recorded main-net header (full ethash check) replayed in a child process with an unusable TMPDIR and GOMAXPROCS=1")
 	here := powScenario()
-	child := runChild(nil, -1, hostileEnv)
+	child := runChild(nil, -1, nodeProfile{}, hostileEnv)
 	r.Case("pow-here", true, func() interface{} { return here[len(here)-3:] })
 	r.Case("pow-child", true, func() interface{} { return child.Trace[len(child.Trace)-3:] })
 	d := firstDiff(here, child.Trace)
